@@ -6,13 +6,14 @@
 (* the closing indentation is long, whatever they are.                                                           *)
 EXTENDS MLString, Lexer, TLC, Json
 
-CONSTANTS Alphabet, N, Quotes, STRIP_BY_LENGTH
+CONSTANTS Alphabet, N, Quotes, STRIP_BY_LENGTH, FirstBreak      \* FirstBreak: "lf" | "cr" | "crlf" after the opening quotes
 
 VARIABLES body, phase
 vars == <<body, phase>>
 
 Q == [i \in 1..Quotes |-> 39]
-Literal == Q \o <<LF>> \o body \o Q
+FB == CASE FirstBreak = "cr" -> <<CR>> [] FirstBreak = "crlf" -> <<CR, LF>> [] OTHER -> <<LF>>
+Literal == Q \o FB \o body \o Q
 OneLiteral == LET t == TextLiteral(Literal, 1) IN t.kind = "TextLiteral(MultiLine)" /\ t.end = Len(Literal) + 1
 
 Init == body = <<>> /\ phase = "gen"
